@@ -8,6 +8,7 @@ pub open spec fn edge(defs: Map<Seq<char>, Seq<DefV>>, n: Seq<char>, d: Seq<char
     defs.contains_key(n) && defs[n].len() > 0 && defs[n][0].dependencies.contains(d) && defs.contains_key(d)
 }
 /// every consecutive pair of p is an edge of G
+#[verifier::opaque]
 pub open spec fn is_chain(defs: Map<Seq<char>, Seq<DefV>>, p: Seq<Seq<char>>) -> bool {
     forall|i: int| 0 <= i && i + 1 < p.len() ==> edge(defs, #[trigger] p[i], p[i + 1])
 }
@@ -20,12 +21,14 @@ pub open spec fn cycle_ok(defs: Map<Seq<char>, Seq<DefV>>, c: CycV) -> bool {
     is_closed_chain(defs, c.path) && defs.contains_key(c.path.last()) && defs[c.path.last()].len() > 0
     && c.fixture == defs[c.path.last()][0]
 }
+#[verifier::opaque]
 pub open spec fn cycles_ok(defs: Map<Seq<char>, Seq<DefV>>, cs: Seq<FixtureCycle>) -> bool {
     forall|k: int| 0 <= k < cs.len() ==> cycle_ok(defs, cyv(&#[trigger] cs[k]))
 }
 /// the de-duplication key of a reported path: names without the repeated last one, sorted, joined with ","
 pub open spec fn cyc_key(p: Seq<Seq<char>>) -> Seq<char> { joined_names(sorted_names(p.drop_last().to_multiset()), ","@) }
 /// every reported cycle's key is in `seen`, and no two reported cycles have the same key
+#[verifier::opaque]
 pub open spec fn keys_ok(cs: Seq<FixtureCycle>, seen: Set<Seq<char>>) -> bool {
     &&& forall|k: int| 0 <= k < cs.len() ==> seen.contains(cyc_key(cyv(&#[trigger] cs[k]).path))
     &&& forall|i: int, j: int| 0 <= i < j < cs.len() ==> cyc_key(cyv(&#[trigger] cs[i]).path) != cyc_key(cyv(&#[trigger] cs[j]).path)
@@ -34,10 +37,12 @@ pub open spec fn keys_ok(cs: Seq<FixtureCycle>, seen: Set<Seq<char>>) -> bool {
 // ---- the two local tables of compute_fixture_cycles
 pub open spec fn dg_view(m: Map<Seq<char>, Vec<String>>) -> Map<Seq<char>, Seq<Seq<char>>> { m.map_values(|v: Vec<String>| strs_v(v@)) }
 /// every adjacency entry of the local dependency table is an edge of G
+#[verifier::opaque]
 pub open spec fn graph_ok(g: Map<Seq<char>, Seq<Seq<char>>>, defs: Map<Seq<char>, Seq<DefV>>) -> bool {
     forall|n: Seq<char>, j: int| g.contains_key(n) && 0 <= j < g[n].len() ==> edge(defs, n, #[trigger] g[n][j])
 }
 /// the local name -> definition table holds first definitions only
+#[verifier::opaque]
 pub open spec fn fdefs_ok(fd: Map<Seq<char>, FixtureDefinition>, defs: Map<Seq<char>, Seq<DefV>>) -> bool {
     forall|n: Seq<char>| #[trigger] fd.contains_key(n) ==> defs.contains_key(n) && defs[n].len() > 0 && dv(&fd[n]) == defs[n][0]
 }
@@ -73,6 +78,7 @@ pub open spec fn link_ok(defs: Map<Seq<char>, Seq<DefV>>, sv: Seq<EntV>, k: int)
     }
 }
 /// the loop invariant of the explicit-stack DFS
+#[verifier::opaque]
 pub open spec fn dfs_inv(defs: Map<Seq<char>, Seq<DefV>>, sv: Seq<EntV>, rec: Set<Seq<char>>, vis: Set<Seq<char>>) -> bool {
     // only the top entry may be a node that has not been entered yet
     &&& forall|k: int| 0 <= k < sv.len() - 1 ==> (#[trigger] sv[k]).idx > 0
@@ -97,6 +103,7 @@ pub proof fn lemma_chain_push(defs: Map<Seq<char>, Seq<DefV>>, p: Seq<Seq<char>>
     requires is_chain(defs, p), p.len() > 0 ==> edge(defs, p.last(), x),
     ensures is_chain(defs, p.push(x)),
 {
+    reveal(is_chain);
     let q = p.push(x);
     assert forall|i: int| 0 <= i && i + 1 < q.len() implies edge(defs, #[trigger] q[i], q[i + 1]) by {
         if i + 1 < p.len() { assert(q[i] == p[i] && q[i + 1] == p[i + 1]); } else { assert(q[i] == p.last() && q[i + 1] == x); }
@@ -106,6 +113,7 @@ pub proof fn lemma_chain_suffix(defs: Map<Seq<char>, Seq<DefV>>, p: Seq<Seq<char
     requires is_chain(defs, p), 0 <= i <= p.len(),
     ensures is_chain(defs, p.subrange(i, p.len() as int)),
 {
+    reveal(is_chain);
     let q = p.subrange(i, p.len() as int);
     assert forall|j: int| 0 <= j && j + 1 < q.len() implies edge(defs, #[trigger] q[j], q[j + 1]) by {
         assert(q[j] == p[i + j] && q[j + 1] == p[i + j + 1]);
@@ -123,6 +131,7 @@ pub proof fn lemma_mid(defs: Map<Seq<char>, Seq<DefV>>, sv: Seq<EntV>, rec: Set<
         &&& forall|x: Seq<char>| cur_rec(e, rec).contains(x) ==> cur_path(e).contains(x)
     }),
 {
+    reveal(dfs_inv);
     let k = sv.len() - 1;
     let e = sv.last();
     assert(e == sv[k]);
@@ -149,6 +158,7 @@ pub proof fn lemma_step_pop(defs: Map<Seq<char>, Seq<DefV>>, sv: Seq<EntV>, rec:
     requires dfs_inv(defs, sv, rec, vis), sv.len() > 0,
     ensures dfs_inv(defs, sv.drop_last(), cur_rec(sv.last(), rec).remove(sv.last().node), vis2),
 {
+    reveal(dfs_inv);
     let e = sv.last();
     let s1 = sv.drop_last();
     let rec2 = cur_rec(e, rec).remove(e.node);
@@ -186,6 +196,7 @@ pub proof fn lemma_step_dep(defs: Map<Seq<char>, Seq<DefV>>, g: Map<Seq<char>, S
         explore ==> !cur_rec(sv.last(), rec).contains(g[sv.last().node][sv.last().idx]) && !vis.contains(g[sv.last().node][sv.last().idx]),
     ensures dfs_inv(defs, next_sv(sv, g[sv.last().node][sv.last().idx], explore), cur_rec(sv.last(), rec), vis),
 {
+    reveal(dfs_inv); reveal(graph_ok);
     let e = sv.last();
     let dep = g[e.node][e.idx];
     let s1 = sv.drop_last();
@@ -243,6 +254,7 @@ pub proof fn lemma_cycle(defs: Map<Seq<char>, Seq<DefV>>, g: Map<Seq<char>, Seq<
         &&& forall|i: int| 0 <= i < cp.len() && cp[i] == dep ==> is_closed_chain(defs, #[trigger] cp.subrange(i, cp.len() as int).push(dep))
     }),
 {
+    reveal(graph_ok);
     let e = sv.last();
     let cp = cur_path(e);
     let dep = g[e.node][e.idx];
@@ -254,6 +266,67 @@ pub proof fn lemma_cycle(defs: Map<Seq<char>, Seq<DefV>>, g: Map<Seq<char>, Seq<
         assert(sub.last() == cp.last());
         lemma_chain_push(defs, sub, dep);
         assert(sub.push(dep)[0] == sub[0]);
+    }
+}
+
+// ---- small steps used by the extracted function (so that the opaque predicates above stay closed there)
+pub proof fn lemma_tables_empty(defs: Map<Seq<char>, Seq<DefV>>)
+    ensures graph_ok(dg_view(Map::<Seq<char>, Vec<String>>::empty()), defs), fdefs_ok(Map::<Seq<char>, FixtureDefinition>::empty(), defs),
+        cycles_ok(defs, Seq::<FixtureCycle>::empty()), keys_ok(Seq::<FixtureCycle>::empty(), Set::<Seq<char>>::empty()),
+{
+    reveal(graph_ok); reveal(fdefs_ok); reveal(cycles_ok); reveal(keys_ok);
+}
+/// one more adjacency entry / table entry for the name n whose first definition is d
+pub proof fn lemma_tables_insert(defs: Map<Seq<char>, Seq<DefV>>, dg0: Map<Seq<char>, Vec<String>>, dg1: Map<Seq<char>, Vec<String>>,
+                                 fd0: Map<Seq<char>, FixtureDefinition>, fd1: Map<Seq<char>, FixtureDefinition>, n: Seq<char>, ds: Vec<String>, d: FixtureDefinition)
+    requires graph_ok(dg_view(dg0), defs), fdefs_ok(fd0, defs), dg1 == dg0.insert(n, ds), fd1 == fd0.insert(n, d),
+        defs.contains_key(n), defs[n].len() > 0, dv(&d) == defs[n][0],
+        forall|j: int| 0 <= j < ds@.len() ==> edge(defs, n, #[trigger] strs_v(ds@)[j]),
+    ensures graph_ok(dg_view(dg1), defs), fdefs_ok(fd1, defs),
+{
+    reveal(graph_ok); reveal(fdefs_ok);
+    let g = dg_view(dg1);
+    assert forall|m: Seq<char>, j: int| g.contains_key(m) && 0 <= j < g[m].len() implies edge(defs, m, #[trigger] g[m][j]) by {
+        if m != n { assert(dg0.contains_key(m) && dg_view(dg0)[m] == g[m]); }
+    }
+}
+/// the initial stack of one DFS root
+pub proof fn lemma_dfs_init(defs: Map<Seq<char>, Seq<DefV>>, sv: Seq<EntV>, vis: Set<Seq<char>>)
+    requires sv.len() == 1, sv[0].idx == 0, sv[0].path =~= Seq::<Seq<char>>::empty(), !vis.contains(sv[0].node),
+    ensures dfs_inv(defs, sv, Set::<Seq<char>>::empty(), vis),
+{
+    reveal(dfs_inv); reveal(is_chain);
+    assert(link_ok(defs, sv, 0));
+}
+/// one reported cycle: a closed chain whose key was not seen, attached to the table entry of its last name
+/// (cs1 == cs0: the table has no entry for the name, nothing is reported but the key is remembered)
+pub proof fn lemma_report(defs: Map<Seq<char>, Seq<DefV>>, fd: Map<Seq<char>, FixtureDefinition>, cs0: Seq<FixtureCycle>, cs1: Seq<FixtureCycle>,
+                          seen0: Set<Seq<char>>, cpv: Seq<Seq<char>>)
+    requires
+        cycles_ok(defs, cs0),
+        keys_ok(cs0, seen0),
+        fdefs_ok(fd, defs),
+        is_closed_chain(defs, cpv),
+        !seen0.contains(cyc_key(cpv)),
+        cs1 == cs0 || (cs1.len() == cs0.len() + 1 && cs1.drop_last() == cs0 && cyv(&cs1.last()).path == cpv
+                       && fd.contains_key(cpv.last()) && cyv(&cs1.last()).fixture == dv(&fd[cpv.last()])),
+    ensures cycles_ok(defs, cs1), keys_ok(cs1, seen0.insert(cyc_key(cpv))),
+{
+    reveal(cycles_ok); reveal(keys_ok); reveal(fdefs_ok);
+    let seen1 = seen0.insert(cyc_key(cpv));
+    if cs1 != cs0 {
+        let n = cs0.len() as int;
+        assert(cs1.last() == cs1[n]);
+        assert forall|k: int| 0 <= k < cs1.len() implies cycle_ok(defs, cyv(&#[trigger] cs1[k])) by {
+            if k < n { assert(cs1[k] == cs0[k]); }
+        }
+        assert forall|k: int| 0 <= k < cs1.len() implies seen1.contains(cyc_key(cyv(&#[trigger] cs1[k]).path)) by {
+            if k < n { assert(cs1[k] == cs0[k]); }
+        }
+        assert forall|i: int, j: int| 0 <= i < j < cs1.len() implies cyc_key(cyv(&#[trigger] cs1[i]).path) != cyc_key(cyv(&#[trigger] cs1[j]).path) by {
+            assert(cs1[i] == cs0[i]);
+            if j < n { assert(cs1[j] == cs0[j]); }
+        }
     }
 }
 
